@@ -11,6 +11,8 @@
     s2pell  <hdr> ra dec a b pa    -> x y sx sy theta
     p2sell  <hdr> x y sx sy theta  -> ra dec a b pa
     psf     <hdr> a b pa ra dec    -> sx sy theta  a' b' pa'   (psf at the reference pixel; get_psf_sky2sky)
+    psfmap  <hdr> a b pa ra dec    -> sx sy theta (get_psf_sky2pix)  sx sy theta (get_psf_pix2pix)  area_pix
+                                      for a psf MAP whose value at (ra, dec) is (a, b, pa)
     leaf    <name> args…           -> value           (one regenerated arithmetic leaf: translator self-check)
   <hdr> = PROJ crval1 crval2 crpix1 crpix2 cdelt1 cdelt2
 -/
@@ -65,6 +67,13 @@ def handle (ws : List String) : String :=
           let P := psfInit W h.crpix1 h.crpix2 a b pa
           let s := psfSky2Sky W P ra dec
           fl [P.sx, P.sy, P.theta, s.1, s.2.1, s.2.2]
+      | "psfmap", [a, b, pa, ra, dec] =>
+          -- one lookup on a helper whose psf map holds (a, b, pa) at (ra, dec): sky2pix then the pix2pix route
+          let M : PsfMap Float := ⟨fun _ _ => (a, b, pa)⟩
+          let p := psfMapSky2Pix W M ra dec
+          let c := sky2pix W ra dec
+          let q := psfMapPix2Pix W M c.1 c.2
+          fl [p.1, p.2.1, p.2.2, q.1, q.2.1, q.2.2, beamAreaPix W M ra dec]
       | _, _ => "bad-op"
     | _, _ => "bad-op"
   | _ => "bad-op"
